@@ -2,7 +2,7 @@
     Model: Core/Value.v, Core/Syntax.v, Core/Render.v (the interpreter for the
     Core Liquid Fragment, which the correspondence run ties to /repo).
     The theorems state the documented laws of that semantics. *)
-From LQ Require Import Core.Render Proofs.Value_proofs Proofs.Render_proofs Proofs.Render_buffer.
+From LQ Require Import Core.Render Proofs.Value_proofs Proofs.Render_proofs Proofs.Render_buffer Proofs.Render_fuel.
 
 (** Sequencing is compositional: rendering [l1 ++ l2] is rendering [l1] and
     then [l2] from where [l1] stopped; the meaning of a construct does not
@@ -97,3 +97,11 @@ Theorem c01_output_only_appended : forall g ld fuel n c b,
   exists d, text (bf (render g ld fuel n c b)) = text b ++ d.
 Proof. exact render_appends. Qed.
 Print Assumptions c01_output_only_appended.
+
+(** The fuel of the interpreter is only a technicality: a render that does not
+    run out of fuel gives exactly the same result with any larger fuel, so the
+    reference semantics of a (program, data) pair is well defined. *)
+Theorem c01_fuel_irrelevant : forall g ld f k n c b,
+  st (render g ld f n c b) <> SFuel -> render g ld (k + f) n c b = render g ld f n c b.
+Proof. exact render_fuel_irrelevant. Qed.
+Print Assumptions c01_fuel_irrelevant.
